@@ -43,7 +43,7 @@ def sh(cmd, timeout=None, env=None, cwd=None, mem_gb=None):
 class Work:
     """scratch directory under /verif/.work/<id>, removed at the end of the run"""
     def __init__(s, pid):
-        s.dir = os.path.join(VERIF, '.work', pid)
+        s.dir = os.path.join(VERIF, '.work', pid + os.environ.get('VERIF_TAG', ''))      # VERIF_TAG: development runs against a scratch copy (VERIF_REPO) that must not disturb a registered run
         shutil.rmtree(s.dir, ignore_errors=True); os.makedirs(s.dir)
     def path(s, *a): return os.path.join(s.dir, *a)
     def clean(s):
@@ -178,7 +178,7 @@ class Evidence:
         if verdict == 'discharged': s.discharged += 1; s.nontrivial += nontrivial
         elif verdict in ('inconclusive', 'timeout', 'oom'): s.inconclusive += 1
     def write(s):
-        os.makedirs(os.path.join(VERIF, 'evidence'), exist_ok=True)
+        evdir = os.path.join(VERIF, 'evidence') if not os.environ.get('VERIF_TAG') else os.path.join(VERIF, '.work', 'evidence' + os.environ['VERIF_TAG']); os.makedirs(evdir, exist_ok=True)
         samples = s.obligations[:12]
         ev = {'property_id': s.pid, 'tier': s.tier, 'seed': s.seed, 'level': 'model_checking',
               'coverage': {'evaluations': max(s.queries, 1), 'distinct_nontrivial': max(s.nontrivial, 0),
@@ -193,7 +193,7 @@ class Evidence:
                            'all_obligations': s.obligations if len(s.obligations) <= 400 else s.obligations[:400],
                            'exhaustive': False},
               'assumptions': s.assumptions, 'wall_s': round(time.time() - s.t0, 2), 'violations': len(s.violations)}
-        json.dump(ev, open(os.path.join(VERIF, 'evidence', s.pid + '.json'), 'w'), indent=1, default=str)
+        json.dump(ev, open(os.path.join(evdir, s.pid + '.json'), 'w'), indent=1, default=str)
         return ev
 
 def save_replay(pid, harness, payload):
